@@ -43,7 +43,26 @@ def make_case(seed, shard_index, i):
         if L >= t:
             continue
         nm = f"tiny_{k + 1}"
-        inp.append([nm, [["F", nm if rng.random() < 0.5 else f"tctg{k}", 1, L, rng.choice([1, -1]), []]]])
+        # 1-3 contigs, abutting without a gap row or separated by small gaps, total length L < t
+        rows = []
+        left = L
+        off = 0
+        parts = rng.randint(1, 3)
+        for j in range(parts):
+            if left < 1:
+                break
+            ln = left if j == parts - 1 else rng.randint(1, left)
+            if rows and rng.random() < 0.5 and left - ln >= 0 and ln > 1:
+                g = rng.randint(1, ln - 1)
+                rows.append(["G", g, rng.choice(["scaffold", "contig"])])
+                ln -= g
+                left -= g
+            rows.append(["F", f"tctg{k}.{j}", off + 1, off + ln, rng.choice([1, -1]), []])
+            off += ln + rng.choice([0, 0, 5])
+            left -= ln
+        if len([r for r in rows if r[0] == "F"]) > 1:
+            labels.add("null:subtexel-multi-contig")
+        inp.append([nm, rows])
         labels.add("null:subtexel-scaffold")
     painted = rng.random() < 0.5
     pt = []
@@ -171,6 +190,7 @@ def gates(c, tier):
         "label:null:bait-overshoots": 500,
         "label:null:subtexel-absent": 100,
         "label:null:subtexel-present": 100,
+        "label:null:subtexel-multi-contig": 50,
         "label:in:both-strands": 500,
         "label:in:gapless-junction": 300,
     }
